@@ -141,6 +141,9 @@ class ScriptedPeer:
         ev = self.send_raw(frame, sp)
         ent = dict(evno=ev, frame=frame, seq=seq, type=str(msgtype), pd=bool(possdup), spec=sp, body=list(body),
                    conn=self.n_connections)
+        if ev is None:
+            # nothing was written (no / closing transport): the frame does not exist, its number is not consumed
+            return ent
         self.sent.append(ent)
         if count and seq is not None and isinstance(seq, int) and seq >= self.next_out and not possdup:
             self.next_out = seq + 1
